@@ -47,8 +47,12 @@ def cases(tier, seed):
             (related if (issubclass(a, b) or issubclass(b, a)) else other).append([gen.class_name(a), gen.class_name(b)])
     rng = gen.rng_for(seed, PROP, "pairs")
     if tier == "quick":
-        rng.shuffle(other)
-        other = other[:1500]
+        # every ordered pair within one kit (state shared by the classes of a kit module can only be seen by such a pair),
+        # plus a seeded sample of the cross-kit pairs (state shared through the core is seen by any pair)
+        same_kit = [p for p in other if p[0].split(".")[0] == p[1].split(".")[0]]
+        cross = [p for p in other if p[0].split(".")[0] != p[1].split(".")[0]]
+        rng.shuffle(cross)
+        other = same_kit + cross[:600]
     pairs = related + other
     out = []
     for j in range(0, len(pairs), 25):
